@@ -26,6 +26,8 @@ thread_local! {
     static STASH: RefCell<Vec<E>> = const { RefCell::new(Vec::new()) };
     /// an element whose check word did not match its id was observed (garbage read)
     static CORRUPT: Cell<u64> = const { Cell::new(0) };
+    /// a `&mut T` returned by `push_mut` / `insert_mut` did not point at the slot the value went into
+    static BADREF: Cell<u64> = const { Cell::new(0) };
     // zero-sized elements: only counts exist
     static ZCREATED: Cell<u64> = const { Cell::new(0) };
     static ZDROPPED: Cell<u64> = const { Cell::new(0) };
@@ -78,6 +80,17 @@ pub fn clear_stash() {
     let z: Vec<Z> = ZSTASH.with(|s| std::mem::take(&mut *s.borrow_mut()));
     drop(z);
 }
+pub fn bad_refs() -> u64 {
+    BADREF.with(|c| c.replace(0))
+}
+pub fn note_bad_ref() {
+    BADREF.with(|c| c.set(c.get() + 1));
+}
+/// payload of the panic that stands for `Err(_)` of a `try_*` method (the model's refused reservation)
+pub struct TryErr;
+pub fn try_err() -> ! {
+    std::panic::panic_any(TryErr)
+}
 pub fn corrupt() -> u64 {
     CORRUPT.with(|c| c.replace(0))
 }
@@ -111,7 +124,7 @@ fn cb_value() -> u64 {
     }
 }
 
-pub trait Elem: Sized + Clone + 'static {
+pub trait Elem: Sized + Clone + PartialEq + 'static {
     const ZST: bool;
     fn make(id: u64) -> Self;
     /// a value that takes no part in the create/drop accounting (must never be dropped)
@@ -173,6 +186,15 @@ impl Elem for E {
     }
 }
 
+/// `==` is what the oracle says (like `same`): `dedup()` is `dedup_by(|a, b| a == b)`
+impl PartialEq for E {
+    fn eq(&self, other: &E) -> bool {
+        self.ident();
+        other.ident();
+        cb_value() != 0
+    }
+}
+
 impl Clone for E {
     fn clone(&self) -> E {
         self.ident();
@@ -218,6 +240,12 @@ impl Elem for Z {
     }
     fn stash(self) {
         ZSTASH.with(|s| s.borrow_mut().push(self));
+    }
+}
+
+impl PartialEq for Z {
+    fn eq(&self, _other: &Z) -> bool {
+        cb_value() != 0
     }
 }
 
